@@ -41,34 +41,24 @@ Proof.
   { destruct (slk key (n_lsubs n)) eqn:El; [|reflexivity]. rewrite (HEX _ _ El) in Eq. discriminate. }
   assert (Hfresh : id <> n_next n).
   { destruct HPC as (_ & _ & _ & P4). specialize (P4 _ _ Eid). lia. }
+  assert (Hside : forall m, n_rsubs m = n_rsubs n -> n_peers m = n_peers n -> n_name m = n_name n -> n_objs m = n_objs n -> same_side n m)
+    by (intros m A B C D; unfold same_side; auto).
   destruct (pq_sub q) eqn:Esub; simpl.
   - destruct ok; simpl; rewrite ?Hl; simpl.
-    + repeat split; try reflexivity.
-      * intros k Hk. simpl. rewrite slk_aset_other, slk_aremove_other by exact Hk. auto.
-      * apply nlk_aremove_same.
-      * apply slk_aremove_same.
-      * intros id' Hn. apply nlk_aremove_other. exact Hn.
-      * apply slk_aset_same.
-    + repeat split; try reflexivity.
-      * intros k Hk. simpl. rewrite slk_aremove_other by exact Hk. auto.
-      * apply nlk_aremove_same.
-      * apply slk_aremove_same.
-      * intros id' Hn. apply nlk_aremove_other. exact Hn.
-      * exact Hl.
+    + split; [apply Hside; reflexivity|]. split; [intros k Hk; simpl; rewrite slk_aset_other, slk_aremove_other by exact Hk; auto|].
+      split; [apply nlk_aremove_same|]. split; [reflexivity|]. split; [apply slk_aremove_same|].
+      split; [intros id' Hn; apply nlk_aremove_other; exact Hn | apply slk_aset_same].
+    + split; [apply Hside; reflexivity|]. split; [intros k Hk; simpl; rewrite slk_aremove_other by exact Hk; auto|].
+      split; [apply nlk_aremove_same|]. split; [reflexivity|]. split; [apply slk_aremove_same|].
+      split; [intros id' Hn; apply nlk_aremove_other; exact Hn | first [exact Hl | reflexivity]].
   - destruct (is_nil (pq_recv q)) eqn:En; simpl.
-    + repeat split; try reflexivity.
-      * intros k Hk. simpl. rewrite slk_aremove_other by exact Hk. auto.
-      * apply nlk_aremove_same.
-      * apply slk_aremove_same.
-      * intros id' Hn. apply nlk_aremove_other. exact Hn.
-      * exact Hl.
-    + repeat split; try reflexivity.
-      * intros k Hk. simpl. rewrite slk_aset_other, slk_aremove_other by exact Hk. auto.
-      * rewrite nlk_aset_other by exact Hfresh. apply nlk_aremove_same.
-      * apply slk_aset_same.
-      * apply nlk_aset_same.
-      * intros id' Hn Hn2. rewrite nlk_aset_other by exact Hn2. apply nlk_aremove_other. exact Hn.
-      * exact Hl.
+    + split; [apply Hside; reflexivity|]. split; [intros k Hk; simpl; rewrite slk_aremove_other by exact Hk; auto|].
+      split; [apply nlk_aremove_same|]. split; [reflexivity|]. split; [apply slk_aremove_same|].
+      split; [intros id' Hn; apply nlk_aremove_other; exact Hn | first [exact Hl | reflexivity]].
+    + split; [apply Hside; reflexivity|]. split; [intros k Hk; simpl; rewrite slk_aset_other, slk_aremove_other by exact Hk; auto|].
+      split; [rewrite nlk_aset_other by exact Hfresh; apply nlk_aremove_same|]. split; [reflexivity|].
+      split; [apply slk_aset_same|]. split; [apply nlk_aset_same|].
+      split; [intros id' Hn Hn2; rewrite nlk_aset_other by exact Hn2; apply nlk_aremove_other; exact Hn | first [exact Hl | reflexivity]].
 Qed.
 
 (* a request that cannot be sent is completed with an error at once: afterwards nothing is registered *)
@@ -85,8 +75,8 @@ Proof.
   pose proof (complete_spec n id false key q HT Eid Eq) as Hs. cbv zeta in Hs.
   destruct (complete n id false) as [n1 r1]. simpl in Hs. destruct Hs as (S1 & S2 & S3 & S4).
   destruct (pq_sub q) eqn:Esub.
-  - destruct S4 as (-> & S5 & S6 & S7). simpl. repeat split; try assumption; apply S1.
-  - rewrite (Hr eq_refl) in S4. simpl in S4. destruct S4 as (-> & S5 & S6 & S7). simpl. repeat split; try assumption; apply S1.
+  - destruct S4 as (-> & S5 & S6 & S7). simpl. auto 10.
+  - rewrite (Hr eq_refl) in S4. simpl in S4. destruct S4 as (-> & S5 & S6 & S7). simpl. auto 10.
 Qed.
 
 Lemma send_req_up n id q :
